@@ -15,10 +15,10 @@ Variable ple : P -> P -> bool.     (* Ord on priorities: a <= b *)
 Variable alloc_limit : N.          (* largest element count an allocation can hold *)
 
 Record store := mkStore {
-  map : list (I * P);
+  smap : list (I * P);
   heap : list nat;
   qp : list nat;
-  size : nat;
+  ssize : nat;
   ticks : nat;
   fuse : option nat;
   cap : N;
@@ -26,13 +26,13 @@ Record store := mkStore {
 
 Notation R := (res store).
 
-Definition set_map (s : store) m := mkStore m (heap s) (qp s) (size s) (ticks s) (fuse s) (cap s).
-Definition set_heap (s : store) h := mkStore (map s) h (qp s) (size s) (ticks s) (fuse s) (cap s).
-Definition set_qp (s : store) q := mkStore (map s) (heap s) q (size s) (ticks s) (fuse s) (cap s).
-Definition set_size (s : store) n := mkStore (map s) (heap s) (qp s) n (ticks s) (fuse s) (cap s).
-Definition set_ticks (s : store) t := mkStore (map s) (heap s) (qp s) (size s) t (fuse s) (cap s).
-Definition set_fuse (s : store) f := mkStore (map s) (heap s) (qp s) (size s) (ticks s) f (cap s).
-Definition set_cap (s : store) c := mkStore (map s) (heap s) (qp s) (size s) (ticks s) (fuse s) c.
+Definition set_map (s : store) m := mkStore m (heap s) (qp s) (ssize s) (ticks s) (fuse s) (cap s).
+Definition set_heap (s : store) h := mkStore (smap s) h (qp s) (ssize s) (ticks s) (fuse s) (cap s).
+Definition set_qp (s : store) q := mkStore (smap s) (heap s) q (ssize s) (ticks s) (fuse s) (cap s).
+Definition set_size (s : store) n := mkStore (smap s) (heap s) (qp s) n (ticks s) (fuse s) (cap s).
+Definition set_ticks (s : store) t := mkStore (smap s) (heap s) (qp s) (ssize s) t (fuse s) (cap s).
+Definition set_fuse (s : store) f := mkStore (smap s) (heap s) (qp s) (ssize s) (ticks s) f (cap s).
+Definition set_cap (s : store) c := mkStore (smap s) (heap s) (qp s) (ssize s) (ticks s) (fuse s) c.
 
 Definition empty_store (c : N) : store := mkStore [] [] [] 0 0 None c.
 
@@ -86,7 +86,7 @@ Definition swap (s : store) (a b : nat) : R store :=
 (** ** Store::swap_remove (store.rs:275) *)
 Definition swap_remove (s : store) (pos : nat) : R (option (I * P) * store) :=
   '(head, heap1) ← vswap_remove (heap s) pos;
-  size1 ← sub1 (size s);
+  size1 ← sub1 (ssize s);
   qp1 ← (if decide (pos < size1)
          then h ← getu heap1 pos; setu (qp s) h pos
          else Ok (qp s));
@@ -94,7 +94,7 @@ Definition swap_remove (s : store) (pos : nat) : R (option (I * P) * store) :=
   heap2 ← (if decide (head < size1)
            then q ← getu qp2 head; setu heap1 q head
            else Ok heap1);
-  match map_swap_remove_index (map s) head with
+  match map_swap_remove_index (smap s) head with
   | Some (e, m') =>
       Ok (Some e, set_size (set_qp (set_heap (set_map s m') heap2) qp2) size1)
   | None =>
@@ -104,7 +104,7 @@ Definition swap_remove (s : store) (pos : nat) : R (option (I * P) * store) :=
 (** ** Store::get_priority_from_position (store.rs:305) *)
 Definition prio_at (s : store) (pos : nat) : R P :=
   i ← getu (heap s) pos;
-  e ← unwrap (map s !! i);
+  e ← unwrap (smap s !! i);
   Ok e.2.
 
 (** ** Store::swap_remove_if (store.rs:345).
@@ -112,61 +112,61 @@ Definition prio_at (s : store) (pos : nat) : R P :=
 Definition swap_remove_if (s : store) (pos : nat) (f : I -> P -> I * P * bool)
   : R (option (I * P) * store) :=
   head ← getu (heap s) pos;
-  e ← unwrap (map s !! head);
+  e ← unwrap (smap s !! head);
   s1 ← cb s;
   let '(i', p', b) := f e.1 e.2 in
-  let s2 := set_map s1 (<[head := (i', p')]> (map s1)) in
+  let s2 := set_map s1 (<[head := (i', p')]> (smap s1)) in
   if b then swap_remove s2 pos else Ok (None, s2).
 
 (** ** Store::change_priority (store.rs:367) *)
 Definition change_priority (s : store) (k : I) (p : P)
   : R (option (P * nat) * store) :=
-  match get_index_of (map s) k with
+  match get_index_of (smap s) k with
   | None => Ok (None, s)
   | Some i =>
-      e ← unwrap (map s !! i);
+      e ← unwrap (smap s !! i);
       pos ← getu (qp s) i;
-      Ok (Some (e.2, pos), set_map s (<[i := (e.1, p)]> (map s)))
+      Ok (Some (e.2, pos), set_map s (<[i := (e.1, p)]> (smap s)))
   end.
 
 (** ** Store::change_priority_by (store.rs:383); the setter is [g : P -> P] *)
 Definition change_priority_by (s : store) (k : I) (g : P -> P)
   : R (option nat * store) :=
-  match get_index_of (map s) k with
+  match get_index_of (smap s) k with
   | None => Ok (None, s)
   | Some i =>
-      e ← unwrap (map s !! i);
+      e ← unwrap (smap s !! i);
       s1 ← cb s;
-      let s2 := set_map s1 (<[i := (e.1, g e.2)]> (map s1)) in
+      let s2 := set_map s1 (<[i := (e.1, g e.2)]> (smap s1)) in
       pos ← getu (qp s2) i;
       Ok (Some pos, s2)
   end.
 
 (** ** lookups (store.rs:397-430) *)
 Definition get (s : store) (k : I) : option (I * P) :=
-  i ← get_index_of (map s) k; map s !! i.
+  i ← get_index_of (smap s) k; smap s !! i.
 Definition get_priority (s : store) (k : I) : option P :=
   snd <$> get s k.
 (** [get_mut]: the caller may rewrite the item through the reference *)
 Definition get_mut (s : store) (k : I) (u : I -> I) : option (I * P) * store :=
-  match get_index_of (map s) k with
+  match get_index_of (smap s) k with
   | None => (None, s)
   | Some i =>
-      match map s !! i with
+      match smap s !! i with
       | None => (None, s)
-      | Some e => (Some (u e.1, e.2), set_map s (<[i := (u e.1, e.2)]> (map s)))
+      | Some e => (Some (u e.1, e.2), set_map s (<[i := (u e.1, e.2)]> (smap s)))
       end
   end.
 
 (** ** Store::remove (store.rs:432) *)
 Definition remove (s : store) (k : I) : R (option (I * P * nat) * store) :=
-  match get_index_of (map s) k with
+  match get_index_of (smap s) k with
   | None => Ok (None, s)
   | Some i =>
-      match map_swap_remove_index (map s) i with
+      match map_swap_remove_index (smap s) i with
       | None => Ok (None, s)
       | Some (e, m') =>
-          size1 ← sub1 (size s);
+          size1 ← sub1 (ssize s);
           '(pos, qp1) ← vswap_remove (qp s) i;
           '(_, heap1) ← vswap_remove (heap s) pos;
           '(qp2, heap2) ←
@@ -208,9 +208,9 @@ Fixpoint retain_entries (f : I -> P -> I * P * bool) (s : store)
   end.
 
 Definition retain_mut (s : store) (f : I -> P -> I * P * bool) : R store :=
-  '(m', s1) ← retain_entries f s [] (map s);
+  '(m', s1) ← retain_entries f s [] (smap s);
   let s2 := set_map s1 m' in
-  if decide (length m' = size s2) then Ok s2
+  if decide (length m' = ssize s2) then Ok s2
   else Ok (set_qp (set_heap (set_size s2 (length m')) (seq 0 (length m')))
                   (seq 0 (length m'))).
 
@@ -218,35 +218,35 @@ Definition retain_mut (s : store) (f : I -> P -> I * P * bool) : R store :=
     at the call; the elements belong to the iterator from then on *)
 Definition clear (s : store) : store :=
   set_size (set_qp (set_heap (set_map s []) []) []) 0.
-Definition drain (s : store) : list (I * P) * store := (map s, clear s).
+Definition drain (s : store) : list (I * P) * store := (smap s, clear s).
 
 (** append one fresh entry to the three collections (the common tail of
     append / from / from_iter / extend / visit_seq) *)
 Definition push_entry (s : store) (e : I * P) : store :=
-  set_size (set_qp (set_heap (set_map s (map s ++ [e])) (heap s ++ [size s]))
-                   (qp s ++ [size s])) (S (size s)).
+  set_size (set_qp (set_heap (set_map s (smap s ++ [e])) (heap s ++ [ssize s]))
+                   (qp s ++ [ssize s])) (S (ssize s)).
 
 (** ** Store::append (store.rs:474).  Returns (self', other').
     [std::mem::swap] exchanges the contents; the ghost fields stay put. *)
 Definition with_ghost_of (g c : store) : store :=
-  mkStore (map c) (heap c) (qp c) (size c) (ticks g) (fuse g) (cap c).
+  mkStore (smap c) (heap c) (qp c) (ssize c) (ticks g) (fuse g) (cap c).
 
 Fixpoint append_entries (s : store) (l : list (I * P)) : store :=
   match l with
   | [] => s
   | e :: l' =>
       append_entries
-        (match get_index_of (map s) e.1 with
+        (match get_index_of (smap s) e.1 with
          | Some _ => s
          | None => push_entry s e
          end) l'
   end.
 
 Definition append (s o : store) : store * store :=
-  let '(s, o) := if decide (size s < size o)
+  let '(s, o) := if decide (ssize s < ssize o)
                  then (with_ghost_of s o, with_ghost_of o s) else (s, o) in
-  if decide (size o = 0) then (s, o)
-  else (append_entries s (map o), clear o).
+  if decide (ssize o = 0) then (s, o)
+  else (append_entries s (smap o), clear o).
 
 (** ** From<Vec> (store.rs:532): the first occurrence of an item wins *)
 Definition from_vec (l : list (I * P)) : store :=
@@ -254,15 +254,15 @@ Definition from_vec (l : list (I * P)) : store :=
 
 (** [reserve]: the documented capacity-overflow panic *)
 Definition reserve (s : store) (n : N) : R store :=
-  if decide (N.of_nat (length (map s)) + n <= alloc_limit)%N
-  then Ok (set_cap s (N.max (cap s) (N.of_nat (length (map s)) + n)))
+  if decide (N.of_nat (length (smap s)) + n <= alloc_limit)%N
+  then Ok (set_cap s (N.max (cap s) (N.of_nat (length (smap s)) + n)))
   else Fault Panic.
 Definition try_reserve (s : store) (n : N) : bool * store :=
-  if decide (N.of_nat (length (map s)) + n <= alloc_limit)%N
-  then (true, set_cap s (N.max (cap s) (N.of_nat (length (map s)) + n)))
+  if decide (N.of_nat (length (smap s)) + n <= alloc_limit)%N
+  then (true, set_cap s (N.max (cap s) (N.of_nat (length (smap s)) + n)))
   else (false, s).
 Definition shrink_to_fit (s : store) : store :=
-  set_cap s (N.of_nat (length (map s))).
+  set_cap s (N.of_nat (length (smap s))).
 Definition with_capacity (c : N) : R store :=
   if decide (c <= alloc_limit)%N then Ok (empty_store c) else Fault Panic.
 
@@ -270,8 +270,8 @@ Definition with_capacity (c : N) : R store :=
     occurrence wins and the stored *item* is overwritten too.  One callback
     per pull from the feeding iterator (the last pull returns None). *)
 Definition extend_one (s : store) (e : I * P) : store :=
-  match get_index_of (map s) e.1 with
-  | Some i => set_map s (<[i := e]> (map s))
+  match get_index_of (smap s) e.1 with
+  | Some i => set_map s (<[i := e]> (smap s))
   | None => push_entry s e
   end.
 
@@ -289,7 +289,7 @@ Definition from_iter (fz : option nat) (l : list (I * P)) (h : size_hint) : R st
   extend_entries (set_fuse s0 fz) l.
 
 (** ** serde: Serialize writes the map in slot order; visit_seq (store.rs:696) *)
-Definition serialize (s : store) : list (I * P) := map s.
+Definition serialize (s : store) : list (I * P) := smap s.
 
 (** [IndexMap::insert]: a present key keeps its slot and its key, the value
     is replaced *)
@@ -303,8 +303,8 @@ Definition map_insert (m : list (I * P)) (k : I) (p : P) : list (I * P) :=
   end.
 
 Definition visit_one (s : store) (e : I * P) : store :=
-  match get_index_of (map s) e.1 with
-  | Some _ => set_map s (map_insert (map s) e.1 e.2)
+  match get_index_of (smap s) e.1 with
+  | Some _ => set_map s (map_insert (smap s) e.1 e.2)
   | None => push_entry s e
   end.
 
@@ -314,11 +314,11 @@ Definition visit_seq (l : list (I * P)) : store :=
 (** ** PartialEq (store.rs:517) = IndexMap's: same length and every entry of
     the left has an equal priority on the right.  [peq] is [P: PartialEq]. *)
 Definition store_eq (peq : P -> P -> bool) (a b : store) : bool :=
-  Nat.eqb (length (map a)) (length (map b)) &&
+  Nat.eqb (length (smap a)) (length (smap b)) &&
   forallb (fun e => match get b e.1 with
                     | Some e' => peq e.2 e'.2
                     | None => false
-                    end) (map a).
+                    end) (smap a).
 
 End Store.
 
